@@ -252,15 +252,23 @@ Lemma skipn_app_len {A} (a b : list A) : skipn (length a) (a ++ b) = b.
 Proof. induction a as [|x a IH]; [reflexivity|]. cbn [length app]. rewrite skipn_cons. exact IH. Qed.
 Lemma firstn_app_len {A} (a b : list A) : firstn (length a) (a ++ b) = a.
 Proof. induction a as [|x a IH]; [reflexivity|]. cbn [length app firstn]. rewrite IH. reflexivity. Qed.
+Definition nonempty (d : bytes) : bool := match d with [] => false | _ => true end.
+Lemma nonempty_written cs : (length (filter nonempty cs) <= length (concat (map write_chunk cs)))%nat.
+Proof.
+  induction cs as [|d cs IH]; [cbn; lia|]. destruct d as [|d0 d']; [exact IH|].
+  cbn [filter nonempty length map concat].
+  change (write_chunk (d0 :: d')) with (hex_of_Z (blen (d0 :: d')) ++ [13; 10] ++ (d0 :: d') ++ [13; 10]).
+  rewrite !app_length. cbn [length]. lia.
+Qed.
 Lemma strict_chunks_written : forall cs fuel acc,
-  forallb (fun d => blen d <? 16 ^ 16) cs = true -> (length cs < fuel)%nat ->
+  forallb (fun d => blen d <? 16 ^ 16) cs = true -> (length (filter nonempty cs) < fuel)%nat ->
   strict_chunks fuel (concat (map write_chunk cs) ++ [48; 13; 10; 13; 10]) acc = Some (acc ++ concat cs, []).
 Proof.
   induction cs as [|d cs IH]; intros fuel acc Hb Hf.
   - destruct fuel as [|f]; [inversion Hf|]. cbn. rewrite app_nil_r. reflexivity.
   - cbn [forallb] in Hb. apply andb_true_iff in Hb. destruct Hb as [Hd Hcs].
     destruct d as [|d0 d'].
-    + cbn [map concat write_chunk app]. rewrite IH; [reflexivity|exact Hcs|cbn [length] in Hf; lia].
+    + cbn [map concat write_chunk app]. rewrite IH; [reflexivity|exact Hcs|exact Hf].
     + destruct fuel as [|f]; [inversion Hf|].
       set (d := d0 :: d') in *.
       assert (Hn : 0 <= blen d < 16 ^ 16) by (unfold blen in *; lia).
@@ -274,7 +282,7 @@ Proof.
       replace (blen (d ++ 13 :: 10 :: concat (map write_chunk cs) ++ [48; 13; 10; 13; 10]) <? blen d) with false.
       2:{ unfold blen. rewrite app_length. lia. }
       unfold blen. rewrite Nat2Z.id, skipn_app_len, firstn_app_len.
-      rewrite IH; [|exact Hcs|cbn [length] in Hf; lia].
+      rewrite IH; [|exact Hcs|unfold d in Hf; cbn [filter nonempty length] in Hf; lia].
       cbn [concat]. rewrite <- app_assoc. reflexivity.
 Qed.
 
@@ -496,7 +504,17 @@ Proof.
     cbn [map snd app negb]. change (snd (parsed (s_cl, dec_of_Z n))) with (trim is_space (dec_of_Z n)).
     rewrite (digits_trim _ Hd), Hpd.
     replace (blen d =? n) with true by lia. reflexivity.
-  - discriminate.
+  - cbn [body_ok] in Hb.
+    cbn [map filter parsed fst snd].
+    change (bytes_eqb (canon_key s_te) s_host) with false.
+    change (bytes_eqb (canon_key s_te) s_te) with true.
+    change (bytes_eqb (canon_key s_te) s_cl) with false.
+    change (strict_framing_key s_te) with true.
+    cbn [map snd app negb].
+    change (snd (parsed (s_te, s_chunked))) with s_chunked.
+    change (bytes_eqb s_chunked s_chunked) with true. cbv iota.
+    rewrite strict_chunks_written; [reflexivity|exact Hb|].
+    pose proof (nonempty_written cs). rewrite app_length. lia.
 Qed.
 
 (* ---------- the same through the wire predicates ---------- *)
@@ -548,7 +566,194 @@ Definition ok1 : val := h1_in ([80;79;83;84;32;47;112;32] ++ b_ver ++ [13;10;72;
 Definition s_cookie_lc : bytes := [99;111;111;107;105;101].
 Definition ok2 : val := fl_in 2 (h2_base b_get b_slash ++ [([120;45;97], [118;9;119]); (s_cookie_lc, [97]); (s_cookie_lc, [98])]).
 Definition ok3 : val := fl_in 3 (spdy_base b_get b_slash b_ahost [([120;45;97], [97;13;10;69;118;105;108;58;32;49;0;98])]).
+(* "POST /p HTTP/1.1\r\nHost: a\r\nTransfer-Encoding: chunked\r\n\r\n3\r\nabc\r\nA \r\n0123456789\r\n0\r\nX-T: 1\r\n\r\n" *)
+Definition ok4 : val := h1_in ([80;79;83;84;32;47;112;32] ++ b_ver ++ [13;10;72;111;115;116;58;32;97;13;10] ++ s_te ++ [58;32] ++ s_chunked ++
+  [13;10;13;10;51;13;10;97;98;99;13;10;65;32;13;10;48;49;50;51;52;53;54;55;56;57;13;10;48;13;10;88;45;84;58;32;49;13;10;13;10]).
 Definition nonvac (i : val) : Prop :=
   exists r, accepted i = inr r /\ safe_request r = true /\ wf_wreq r = true /\ prop_C25 i (run_C25 i) = true.
-Lemma C25_nonvacuous_lemma : nonvac ok1 /\ nonvac ok2 /\ nonvac ok3.
+Lemma C25_nonvacuous_lemma : nonvac ok1 /\ nonvac ok2 /\ nonvac ok3 /\ nonvac ok4.
 Proof. repeat split; eexists; (split; [vm_compute; reflexivity|]); repeat split; vm_compute; reflexivity. Qed.
+
+(* ---------- every frontend stores header keys in canonical form (premise canon_ok of wf_wreq) ---------- *)
+Definition cstep (u : bool) (c : Z) : Z :=
+  if u && (97 <=? c) && (c <=? 122) then c - 32
+  else if negb u && (65 <=? c) && (c <=? 90) then c + 32 else c.
+Lemma canon_go_cons u c r : canon_go u (c :: r) = cstep u c :: canon_go (cstep u c =? 45) r.
+Proof. reflexivity. Qed.
+Lemma cstep_tchar u c : is_tchar c = true -> is_tchar (cstep u c) = true.
+Proof.
+  unfold cstep. destruct u; cbn [andb negb].
+  - destruct ((97 <=? c) && (c <=? 122)) eqn:E; [|auto]. intros _. unfold is_tchar, is_alpha. lia.
+  - destruct ((65 <=? c) && (c <=? 90)) eqn:E; [|auto]. intros _. unfold is_tchar, is_alpha. lia.
+Qed.
+Lemma cstep_idem u c : cstep u (cstep u c) = cstep u c.
+Proof.
+  unfold cstep. destruct u; cbn [andb negb].
+  - destruct ((97 <=? c) && (c <=? 122)) eqn:E; [|rewrite E; reflexivity].
+    replace ((97 <=? c - 32) && (c - 32 <=? 122)) with false by lia. reflexivity.
+  - destruct ((65 <=? c) && (c <=? 90)) eqn:E; [|rewrite E; reflexivity].
+    replace ((65 <=? c + 32) && (c + 32 <=? 90)) with false by lia. reflexivity.
+Qed.
+Lemma canon_go_tchar a : forall u, forallb is_tchar a = true -> forallb is_tchar (canon_go u a) = true.
+Proof.
+  induction a as [|c r IH]; intros u H; [reflexivity|]. rewrite canon_go_cons.
+  cbn [forallb] in *. apply andb_true_iff in H. destruct H as [H1 H2]. rewrite (cstep_tchar u c H1), (IH _ H2). reflexivity.
+Qed.
+Lemma canon_go_idem a : forall u, canon_go u (canon_go u a) = canon_go u a.
+Proof.
+  induction a as [|c r IH]; intro u; [reflexivity|]. rewrite !canon_go_cons, cstep_idem, IH. reflexivity.
+Qed.
+Lemma canon_key_idem a : canon_key (canon_key a) = canon_key a.
+Proof.
+  unfold canon_key. destruct (forallb is_tchar a) eqn:E.
+  - rewrite (canon_go_tchar a true E). apply canon_go_idem.
+  - rewrite E. reflexivity.
+Qed.
+Lemma canon_ok_canon k v : canon_ok (canon_key k, v) = true.
+Proof. unfold canon_ok. cbn [fst]. rewrite canon_key_idem. apply bytes_eqb_refl. Qed.
+
+Lemma canon_ok_filter (P : bytes * bytes -> bool) l : forallb canon_ok l = true -> forallb canon_ok (filter P l) = true.
+Proof.
+  induction l as [|x l IH]; cbn [filter forallb]; [reflexivity|]. intro H. apply andb_true_iff in H. destruct H as [H1 H2].
+  destruct (P x); [cbn [forallb]; rewrite H1, (IH H2); reflexivity|exact (IH H2)].
+Qed.
+Lemma canon_ok_set_first k v : canon_ok (k, v) = true -> forall h seen,
+  forallb canon_ok h = true -> forallb canon_ok (set_first k v seen h) = true.
+Proof.
+  intros Hk h. induction h as [|x h IH]; intros seen H; [reflexivity|].
+  cbn [forallb] in H. apply andb_true_iff in H. destruct H as [H1 H2]. cbn [set_first].
+  destruct (key_is k x); [destruct seen; [apply IH; exact H2|cbn [forallb]; rewrite Hk, (IH _ H2); reflexivity]|].
+  cbn [forallb]. rewrite H1, (IH _ H2). reflexivity.
+Qed.
+Lemma canon_ok_canon_fields fs : forallb canon_ok (canon_fields fs) = true.
+Proof. unfold canon_fields. induction fs as [|x fs IH]; [reflexivity|]. cbn [map forallb]. rewrite canon_ok_canon, IH. reflexivity. Qed.
+Lemma canon_ok_merge h : forallb canon_ok h = true -> forallb canon_ok (merge_cookies h) = true.
+Proof.
+  intro H. unfold merge_cookies. destruct (get_all s_cookie h) as [|a [|b l]]; try exact H.
+  apply canon_ok_set_first; [reflexivity|exact H].
+Qed.
+Lemma canon_ok_del_expect h : forallb canon_ok h = true -> forallb canon_ok (del_expect h) = true.
+Proof. intro H. unfold del_expect. destruct (bytes_eqb _ _); [apply canon_ok_filter; exact H|exact H]. Qed.
+
+Lemma match03 {T : Type} (z a b : Z) (X r : T) :
+  match z with 0 => inl a | 3 => inl b | _ => inr X end = inr r -> X = r.
+Proof.
+  destruct z as [|p|p]; [discriminate| |intro H; inversion H; reflexivity].
+  destruct p as [[p'|p'|]|p'|]; intro H; try discriminate; inversion H; reflexivity.
+Qed.
+Lemma h2_canonical fs r : front_h2 fs = inr r -> forallb canon_ok (w_fields r) = true.
+Proof.
+  unfold front_h2. destruct (negb _); [discriminate|].
+  destruct (bytes_eqb _ s_connect); [discriminate|].
+  destruct (_ || _ || _); [discriminate|].
+  intro H. apply match03 in H. subst r. cbn [w_fields].
+  apply canon_ok_filter, canon_ok_merge, canon_ok_del_expect, canon_ok_canon_fields.
+Qed.
+
+Lemma canon_ok_values k l : forallb canon_ok (map (fun x : bytes => (canon_key k, x)) l) = true.
+Proof. induction l as [|x l IH]; [reflexivity|]. cbn [map forallb]. rewrite canon_ok_canon, IH. reflexivity. Qed.
+Lemma spdy_block_canonical : forall ps seen h, spdy_block seen ps = Some h -> forallb canon_ok h = true.
+Proof.
+  induction ps as [|[n v] ps IH]; intros seen h H; cbn [spdy_block] in H.
+  - inversion H. reflexivity.
+  - destruct (has_upper n || existsb (bytes_eqb n) seen); [discriminate|].
+    destruct (spdy_block (canon_key n :: seen) ps) as [fs|] eqn:E; [|discriminate]. inversion H; subst h.
+    rewrite forallb_app, (IH _ _ E), andb_true_r. apply canon_ok_values.
+Qed.
+Lemma spdy_canonical ps r : front_spdy ps = inr r -> forallb canon_ok (w_fields r) = true.
+Proof.
+  unfold front_spdy.
+  match goal with |- (if ?c then _ else _) = _ -> _ => destruct c; [discriminate|] end.
+  destruct (spdy_block [] ps) as [h|] eqn:E; [|discriminate].
+  pose proof (spdy_block_canonical _ _ _ E) as Hh.
+  match goal with |- (if ?c then _ else _) = _ -> _ => destruct c; [discriminate|] end.
+  match goal with |- (if ?c then _ else _) = _ -> _ => destruct c; [discriminate|] end.
+  intro H. apply match03 in H. subst r. cbn [w_fields].
+  rewrite forallb_app. apply andb_true_iff. split; [|reflexivity].
+  repeat apply canon_ok_filter. apply canon_ok_merge, canon_ok_del_expect. exact Hh.
+Qed.
+
+Lemma collect_bfe_canonical : forall ls fs, collect_fields bfe_field ls = Some fs -> forallb canon_ok fs = true.
+Proof.
+  induction ls as [|l ls IH]; intros fs H; cbn [collect_fields] in H.
+  - inversion H. reflexivity.
+  - unfold bfe_field in H at 1. destruct (line_key l) as [k|]; [|discriminate].
+    destruct (canon_key k) as [|z0 l0] eqn:Ek.
+    + apply IH. exact H.
+    + destruct (collect_fields bfe_field ls) as [fs'|]; [|discriminate]. inversion H.
+      cbn [forallb]. rewrite <- Ek, canon_ok_canon, (IH _ eq_refl). reflexivity.
+Qed.
+Lemma validate_fields V hd m : validate V hd = inr m -> collect_fields (v_field V) (h_lines hd) = Some (r_fields m).
+Proof.
+  unfold validate. destruct (parse_request_line (h_reqline hd)) as [[[me t] p]|]; [|discriminate].
+  destruct (negb (v_method V me)); [discriminate|]. destruct (negb (v_version V p)); [discriminate|].
+  destruct (target_class me t =? 0); [discriminate|]. destruct (target_class me t =? 3); [discriminate|].
+  destruct (h_leadws hd && negb (v_leadws V)); [discriminate|].
+  destruct (collect_fields (v_field V) (h_lines hd)) as [fs|]; [|discriminate].
+  destruct (negb (h_complete hd)); [discriminate|]. destruct (v_frame V fs) as [c|fr]; [discriminate|].
+  intro H. inversion H. reflexivity.
+Qed.
+Lemma canon_ok_dedupe f : forall seen h, forallb canon_ok h = true -> forallb canon_ok (dedupe_cl f seen h) = true.
+Proof.
+  intros seen h. revert seen. induction h as [|x h IH]; intros seen H; [reflexivity|].
+  cbn [forallb] in H. apply andb_true_iff in H. destruct H as [H1 H2]. cbn [dedupe_cl].
+  destruct (key_is s_cl x); [destruct seen; [apply IH; exact H2|cbn [forallb]; rewrite (IH _ H2); reflexivity]|].
+  cbn [forallb]. rewrite H1, (IH _ H2). reflexivity.
+Qed.
+Lemma final_canonical h fr : forallb canon_ok h = true -> forallb canon_ok (bfe_final_fields h fr) = true.
+Proof.
+  intro H. unfold bfe_final_fields.
+  set (h1 := del_key s_host h).
+  assert (E1 : forallb canon_ok h1 = true) by (apply canon_ok_filter; exact H).
+  set (h2 := if has_key s_pragma h1 && bytes_eqb (get_first s_pragma h1) s_nocache && negb (has_key s_cc h1)
+             then h1 ++ [(s_cc, s_nocache)] else h1).
+  assert (E2 : forallb canon_ok h2 = true).
+  { unfold h2. destruct (has_key s_pragma h1 && bytes_eqb (get_first s_pragma h1) s_nocache && negb (has_key s_cc h1)); [|exact E1].
+    rewrite forallb_app, E1. reflexivity. }
+  set (h3 := del_key s_te h2).
+  assert (E3 : forallb canon_ok h3 = true) by (apply canon_ok_filter; exact E2).
+  match goal with |- forallb canon_ok (match get_first s_trailer ?h4 with _ => _ end) = _ =>
+    assert (E4 : forallb canon_ok h4 = true) end.
+  { destruct fr as [n|].
+    - set (h' := match get_all s_cl h3 with _ :: _ :: _ => dedupe_cl (trim4 (hd [] (get_all s_cl h3))) false h3 | _ => h3 end).
+      assert (E' : forallb canon_ok h' = true).
+      { unfold h'. destruct (get_all s_cl h3) as [|a [|b l]]; try exact E3. apply canon_ok_dedupe. exact E3. }
+      destruct (cl_first (get_all s_cl h3)); [apply canon_ok_filter; exact E'|exact E'].
+    - apply canon_ok_filter. exact E3. }
+  match goal with |- forallb canon_ok (match ?x with _ => _ end) = _ => destruct x end;
+    [exact E4|apply canon_ok_filter; exact E4].
+Qed.
+Lemma inl_match98 {T : Type} (c : Z) (r : T) : match c with 98 => @inl Z T 98 | _ => inl 1 end = inr r -> False.
+Proof.
+  destruct c as [|p|p]; try discriminate.
+  do 7 (destruct p as [p|p|]; try discriminate).
+Qed.
+Lemma h1_canonical s r : front_http1 s = inr r -> forallb canon_ok (w_fields r) = true.
+Proof.
+  unfold front_http1. destruct (read_head s) as [hd|]; [|discriminate].
+  destruct (validate V_bfe hd) as [c|m] eqn:Ev.
+  { intro H. exfalso. exact (inl_match98 c r H). }
+  pose proof (validate_fields _ _ _ Ev) as Hf. cbn [v_field V_bfe] in Hf.
+  pose proof (final_canonical _ (r_framing m) (collect_bfe_canonical _ _ Hf)) as Hc.
+  destruct (h1_ruri (r_target m)); [|discriminate].
+  destruct (r_framing m) as [n|].
+  - destruct (n =? 0); [intro H; inversion H; exact Hc|].
+    destruct (blen (h_rest hd) <? n); [discriminate|]. intro H; inversion H; exact Hc.
+  - destruct (read_chunk_list _ _ _); [|discriminate]. intro H; inversion H; exact Hc.
+Qed.
+Theorem frontends_canonical i r : accepted i = inr r -> forallb canon_ok (w_fields r) = true.
+Proof.
+  intro H. unfold accepted in H.
+  repeat match type of H with
+         | match ?x with _ => _ end = _ => destruct x; try discriminate
+         end;
+    first [exact (h1_canonical _ _ H) | exact (h2_canonical _ _ H) | exact (spdy_canonical _ _ H)].
+Qed.
+
+Theorem C25_prop_of_model_strong_lemma : forall i r,
+  accepted i = inr r -> safe_request r = true -> body_ok (w_body r) = true ->
+  prop_C25 i (run_C25 i) = true.
+Proof.
+  intros i r Ha Hs Hb. apply (C25_prop_of_model_lemma i r Ha Hs).
+  unfold wf_wreq. rewrite (frontends_canonical i r Ha), Hb. reflexivity.
+Qed.
